@@ -570,7 +570,7 @@ def paths_of(prog: Program, func: FuncInfo, outer_env: dict | None = None) -> li
     return _cache[key]
 
 
-def _expand_super(prog: Program, func: FuncInfo, paths: list[Path]) -> list[Path]:
+def _expand_super(prog: Program, func: FuncInfo, paths: list[Path], _depth: int = 0) -> list[Path]:
     """A path that ends in `return super().<same method>(args)` continues with the parent method's paths,
     so that splitting a routine into a subclass plus a super call is transparent to every rule."""
     if func.cls is None:
@@ -578,14 +578,22 @@ def _expand_super(prog: Program, func: FuncInfo, paths: list[Path]) -> list[Path
     out = []
     for p in paths:
         r = p.exit[1] if p.exit[0] == "return" else None
-        if not (r and r[0] == "call" and r[1][0] == "attr" and r[1][2] == func.name and T.is_call_to(r[1][1], "builtins.super")):
+        is_super = bool(r and r[0] == "call" and r[1][0] == "attr" and r[1][2] == func.name and T.is_call_to(r[1][1], "builtins.super"))
+        # `return self._helper(...)`: a routine split into a private helper method continues in the helper
+        is_helper = bool(r and r[0] == "call" and r[1][0] == "attr" and r[1][1] == ("param", "self") and r[1][2].startswith("_") and not r[1][2].startswith("__") and r[1][2] != func.name and _depth < 2)
+        if not (is_super or is_helper):
             out.append(p)
             continue
         parent = None
-        for c in prog.mro(func.cls)[1:]:
-            if func.name in c.methods:
-                parent = c.methods[func.name]
-                break
+        if is_super:
+            for c in prog.mro(func.cls)[1:]:
+                if func.name in c.methods:
+                    parent = c.methods[func.name]
+                    break
+        else:
+            parent = prog.lookup_method(func.cls, r[1][2])
+            if parent is not None and any(d and (d.endswith("property") or d.endswith("abstractmethod")) for d in parent.decorators):
+                parent = None
         if parent is None:
             out.append(p)
             continue
